@@ -1861,4 +1861,51 @@ theorem serve_stages (K : FilterConsts) (tbl : List OptionRow) (m : ManifestRow)
 end
 
 
+section
+variable {DT : Type} [DecidableEq DT] (C : DTCodec DT)
+
+/-- the names `calculate_cgi_parameters` excludes for every media type -/
+def mediaExclude : List String := ["encrypted", "mode"]
+
+/-- the media handler's view of the parameters `calculate_cgi_parameters` wrote for one media type:
+it accepts the URL, has the parsed text for every written parameter and the default for every
+option no parameter names -/
+theorem media_side_parse (hC : DtCodecLaws C) (tbl : List OptionRow) (ht : TableOk tbl)
+    (use : Nat) (dflt : Nat → Val DT) (o : Opts DT)
+    (ovs : List (String × Bytes)) (hovs : (ovs.map Prod.fst).Nodup)
+    (path : Bytes) (hp : (35 : UInt8) ∉ path ∧ (63 : UInt8) ∉ path)
+    (hcanon : ∀ i : Nat, ∀ r : OptionRow, ∀ v, tbl[i]? = some r → o i = some v →
+      r.usage &&& use ≠ 0 → mediaExclude.contains r.fieldName = false → v ≠ dflt i →
+      r.cgi ∉ ovs.map Prod.fst → Canonical r.kind v)
+    (hov : ∀ k t, (k, t) ∈ ovs → ∃ i : Nat, ∃ r : OptionRow, ∃ w, tbl[i]? = some r ∧ r.cgi = k ∧
+      fromString C r.kind t = .ok w) :
+    ∃ res, mediaOptions C tbl dflt
+        (path ++ mediaQuery C tbl use (fun i => some (dflt i)) o ovs) = .ok res ∧
+      (∀ i : Nat, ∀ r : OptionRow, tbl[i]? = some r →
+        (∀ t, (r.cgi, t) ∉ applyOverrides
+          (genParams C tbl (some use) mediaExclude true (fun i => some (dflt i)) o) ovs) →
+        res i = dflt i) ∧
+      (∀ i : Nat, ∀ r : OptionRow, ∀ t, tbl[i]? = some r →
+        (r.cgi, t) ∈ applyOverrides
+          (genParams C tbl (some use) mediaExclude true (fun i => some (dflt i)) o) ovs →
+        fromString C r.kind (cgiText t) = .ok (res i)) := by
+  have hGnd : ((genParams C tbl (some use) mediaExclude true (fun i => some (dflt i)) o).map Prod.fst).Nodup :=
+    genFrom_keys_nodup C (some use) mediaExclude true _ o tbl 0 (table_cgi_nodup tbl ht)
+  have hmem := mem_applyOverrides (genParams C tbl (some use) mediaExclude true (fun i => some (dflt i)) o) ovs hovs
+  exact media_parse_of_params C tbl ht dflt path hp _ (applyOverrides_keys_nodup _ ovs hGnd) (by
+    intro p hpP
+    rcases (hmem p).mp hpP with ⟨hpG, hnov⟩ | ⟨t, hto, hp2⟩
+    · obtain ⟨i, r, hr, he⟩ := (mem_genParams C tbl (some use) mediaExclude true _ o p).mp hpG
+      obtain ⟨v, ho, hx, hd, hu, hpe⟩ := (emit_some_iff C _ _ _ _ _ _ _ _).mp he
+      have hc : r.cgi = p.1 := by rw [← hpe]
+      have hd' : v ≠ dflt i := by intro e; simp [e] at hd
+      obtain ⟨v', hv', _⟩ := codec_roundtrip_all C hC r.kind v
+        (hcanon i r v hr ho (by simpa [useMiss] using hu) hx hd' (by rw [hc]; exact hnov))
+      exact ⟨i, r, v', hr, hc, by rw [← hpe]; exact hv'⟩
+    · obtain ⟨i, r, w, hr, hc, hw⟩ := hov p.1 t hto
+      exact ⟨i, r, w, hr, hc, by rw [hp2]; exact hw⟩)
+
+end
+
+
 end DashLive.Options
